@@ -8,6 +8,8 @@ TRUST = ("reference models and the cdfspec codec in /verif/pv (independent of th
 CHECKS = {
  "C01": dict(level="exploration", section="4/C01", technique="property-based testing (Hypothesis) of generated multi-rank put/get programs against a numpy reference model and an independent CDF decoder",
              text="Generated-program search (Hypothesis, shrinking, 3x replay): every blocking put/get form x memory type x derived buffer datatype x decomposition over 1-4 (8 thorough) ranks is compared element-by-element with a reference model after each read, after close/reopen, and through an independent format decoder. Finds wrong-element/wrong-offset/conversion defects on the sampled programs; does not prove absence."),
+ "C02": dict(level="exploration", section="4/C02", technique="property-based testing (Hypothesis) of generated nonblocking request multisets and wait plans against a blocking-semantics reference model",
+             text="Generated-program search: per-rank multisets of iput/iget/bput requests and arbitrary wait/wait_all/cancel partitions and id orders over 1-4 (8 thorough) ranks; after every call the model (each completed request applied as its blocking counterpart) is compared with inq_nreqs, statuses/id arrays, iget buffers and the whole file (and the closed file through an independent decoder). Sampling, not proof."),
 }
 NA_REASON = "check under construction in this session; not yet claimed"
 checks = []
